@@ -449,3 +449,55 @@ def accept_reply_obligation(prog, enums, structs):
                                                        udp_reply_id=m.eval(field(structs, env["udp_reply"], "qid").t, model_completion=True).as_long(),
                                                        udp_reply_tc=bool(z3.is_true(m.eval(field(structs, env["udp_reply"], "tc").t, model_completion=True))))))
     return failed, ex, len(paths), kinds
+
+
+def adapt_timeout_obligation(prog, enums, structs):
+    """the adaptive retransmission timeout (dns/outquery.rs send_udp, lifted): one update from any in-bounds value stays in bounds
+    (inductive: so does every history) and never panics"""
+    from .summaries import duration
+    fns = [f for f in prog.find("lifted_outquery_adapt_timeout", 4)]
+    bfn = [f for f in prog.find("verif_timeout_bounds", 0)]
+    if len(fns) != 1 or len(bfn) != 1:
+        raise Unsupported("lifted_outquery_adapt_timeout / verif_timeout_bounds not found in the MIR dump")
+    ex = Exec(prog, dict(S), enums, max_unroll=6)
+    NANOS = 1000000000
+
+    def dur_sym(tag):
+        s_, n_ = z3.BitVec(tag + "_s", 64), z3.BitVec(tag + "_ns", 32)
+        return s_, n_
+
+    def le(a, b):       # (secs, nanos) lexicographic
+        return z3.Or(z3.ULT(a[0], b[0]), z3.And(a[0] == b[0], z3.ULE(a[1], b[1])))
+
+    def run(e):
+        bounds = e.call_fn(bfn[0], [])
+        mn, mx = bounds.items[0], bounds.items[1]
+        mnt, mxt = (mn.fields[0].t, mn.fields[1].t), (mx.fields[0].t, mx.fields[1].t)
+        e.env["bounds"] = (mnt, mxt)
+        cur, ini, d = dur_sym("timeout"), dur_sym("initial"), dur_sym("elapsed")
+        for x in (cur, ini, d):
+            e.assume(z3.ULT(x[1], NANOS))
+        e.assume(z3.And(le(mnt, cur), le(cur, mxt), le(mnt, ini), le(ini, mxt)))
+        e.assume(z3.ULE(d[0], 86400))                  # a reply that took more than a day is outside the bound
+        n = z3.BitVec("attempts", 64)
+        e.assume(z3.ULE(n, 8))
+        cell = Cell(duration(cur[0], cur[1]))
+        e.env["cell"] = cell
+        return e.call_fn(fns[0], [BV(n), duration(d[0], d[1]), duration(ini[0], ini[1]), Ref(cell, mut=True)])
+    paths = ex.explore(run)
+    failed, kinds = [], {}
+    for outcome, val, pc, env in paths:
+        if outcome == "panic":
+            kinds["panic"] = kinds.get("panic", 0) + 1
+            claims = [("updating the retransmission timeout never panics or overflows: " + str(val), z3.BoolVal(False))]
+        else:
+            kinds["ok"] = kinds.get("ok", 0) + 1
+            c = env["cell"].v
+            got = (c.fields[0].t, c.fields[1].t)
+            mnt, mxt = env["bounds"]
+            claims = [("the retransmission timeout stays within its documented bounds (MIN_DNS_TIMEOUT..MAX_DNS_TIMEOUT) after every update", z3.And(le(mnt, got), le(got, mxt)))]
+        for name, f in claims:
+            m = check(ex, pc, f, name)
+            if m is not None:
+                failed.append(dict(check="", description=name, location="dns/outquery.rs send_udp (lifted)", kind="violation", counterexample=dict(outquery=True, note="timeout update")))
+    return failed, ex, len(paths), kinds
